@@ -29,10 +29,17 @@ func lookupNode[T any](urlTree *URLTree[T], url string) lookupNodeResult[T] {
 	currentNode := urlTree.Root
 	var params map[string]string
 	var foundWildcardNode *Node[T]
+	// The URL of the wildcard node itself (the path of its parent followed by
+	// the wildcard) and the path parameters on the way to it, which is what a
+	// wildcard match is normalized to.
+	foundWildcardPath := ""
+	var foundWildcardParams map[string]string
 	urlPath := ""
 	for _, urlPart := range splitURL {
 		if currentNode.WildcardChild != nil {
 			foundWildcardNode = currentNode.WildcardChild
+			foundWildcardPath = wildcardURLPath(urlPath, foundWildcardNode)
+			foundWildcardParams = copyParams(params)
 		}
 		child, found := currentNode.ConstantChildren[urlPart.Value]
 		if found && child.IsPartOfHost == urlPart.IsPartOfHost {
@@ -74,12 +81,11 @@ func lookupNode[T any](urlTree *URLTree[T], url string) lookupNodeResult[T] {
 
 		if foundWildcardNode != nil {
 			// Didn't find exact value, but found a matching wildcard
-			urlPath = urlPath + getDelimiter(urlPart) + wildcard
 			return buildLookupNodeResult(
 				true,
 				foundWildcardNode,
-				params,
-				urlPath,
+				foundWildcardParams,
+				foundWildcardPath,
 			)
 		}
 
@@ -93,15 +99,36 @@ func lookupNode[T any](urlTree *URLTree[T], url string) lookupNodeResult[T] {
 	// Exact value not found, check if node has wildcard child
 	if currentNode.WildcardChild != nil {
 		return buildLookupNodeResult(
-			true, currentNode.WildcardChild, params, urlPath)
+			true,
+			currentNode.WildcardChild,
+			params,
+			wildcardURLPath(urlPath, currentNode.WildcardChild),
+		)
 	}
 	// Check if a matching wildcard was found in a parent node
 	if foundWildcardNode != nil {
-		return buildLookupNodeResult(true, foundWildcardNode, params, urlPath)
+		return buildLookupNodeResult(
+			true, foundWildcardNode, foundWildcardParams, foundWildcardPath)
 	}
 
 	// No match found, return the node that was found with noMatch
 	return buildLookupNodeResult(false, currentNode, params, urlPath)
+}
+
+func wildcardURLPath[T any](parentURLPath string, wildcardNode *Node[T]) string {
+	delimiter := getDelimiter(urlPart{IsPartOfHost: wildcardNode.IsPartOfHost})
+	return parentURLPath + delimiter + wildcard
+}
+
+func copyParams(params map[string]string) map[string]string {
+	if params == nil {
+		return nil
+	}
+	copied := make(map[string]string, len(params))
+	for name, value := range params {
+		copied[name] = value
+	}
+	return copied
 }
 
 func getDelimiter(urlPart urlPart) string {
